@@ -107,6 +107,21 @@ Fam_SkipSame ==
        seeds |-> {[par |-> "A", pos |-> q] : q \in sa} \cup {[par |-> "B", pos |-> q] : q \in sb}] :
         ca \in SUBSET P3, cb \in SUBSET {<<3, 4>>}, sa \in SUBSET {<<0, 0>>, <<3, 4>>}, sb \in SUBSET {<<3, 4>>, <<6, 8>>} }
 
+\* family 3b: SkipSameSprout with parents on two different levels: root (level 0, children A and B sprouted from
+\* seedA / seedB) and A (level 1, children on level 2).  A candidate is compared with the seeds of its own target level.
+LvlOfS(p) == IF p = "root" THEN 0 ELSE 1
+Outs_SkipSameL(C, seeds) ==
+    { K \in SUBSET C :
+        /\ \A c \in C : (\E s \in seeds : s.par = c.par /\ s.pos = c.pos) => c \notin K
+        /\ \A c \in C : (\A s \in seeds : LvlOfS(s.par) = LvlOfS(c.par) => s.pos # c.pos) => c \in K }
+Fam_SkipSame3 ==
+    { [fam |-> "skipsame3", seedA |-> pa, seedB |-> <<6, 8>>,
+       cands |-> PosCands("root", cr) \cup PosCands("A", ca),
+       seeds |-> {[par |-> "root", pos |-> pa], [par |-> "root", pos |-> <<6, 8>>]}
+                 \cup {[par |-> "A", pos |-> q] : q \in sa} \cup {[par |-> "B", pos |-> q] : q \in sb}] :
+        pa \in {<<0, 0>>, <<3, 4>>}, cr \in SUBSET P3, ca \in SUBSET P3,
+        sa \in SUBSET {<<0, 0>>, <<3, 4>>}, sb \in SUBSET {<<3, 4>>} }
+
 \* family 4: FarEnough / NBC_FarEnough: one parent, up to 2 candidates, up to 2 siblings
 Sibs == {S \in SUBSET [pos : Points, active : BOOLEAN] : Cardinality(S) <= 2}
 Fam_Far ==
@@ -123,6 +138,9 @@ Row_LevelLimit(c) == [fam |-> c.fam, L |-> c.L, a1 |-> c.a1, a2 |-> c.a2, i2 |->
                       ok |-> SetToSeq({SetToSeq(Ids(K)) : K \in Outs_LevelLimit(c.cands, c.L, LvlOf, ActOf(c), {1, 2})})]
 Row_SkipSame(c)   == [fam |-> c.fam, cands |-> SetToSeq(c.cands), seeds |-> SetToSeq(c.seeds),
                       ok |-> SetToSeq({SetToSeq(Ids(K)) : K \in Outs_SkipSame(c.cands, c.seeds)})]
+Row_SkipSame3(c)  == [fam |-> c.fam, seedA |-> c.seedA, seedB |-> c.seedB, cands |-> SetToSeq(c.cands),
+                      seeds |-> SetToSeq({x \in c.seeds : x.par # "root"}),
+                      ok |-> SetToSeq({SetToSeq(Ids(K)) : K \in Outs_SkipSameL(c.cands, c.seeds)})]
 Row_Far(c)        == [fam |-> c.fam, thr |-> c.thr, ord |-> c.ord, sibs |-> SetToSeq(c.sibs), cands |-> SetToSeq(c.cands),
                       ok |-> <<SetToSeq(Ids(Out_FarEnough(c.cands, c.sibs, c.thr, c.ord)))>>]
 Row_NBCFar(c)     == [fam |-> c.fam, factor |-> c.factor, mean |-> c.mean, only |-> c.only, sibs |-> SetToSeq(c.sibs),
@@ -132,7 +150,8 @@ Row_NBCFar(c)     == [fam |-> c.fam, factor |-> c.factor, mean |-> c.mean, only 
 WriteTables ==
     /\ ndJsonSerialize(IOEnv.VERIF_OUT,
           SetToSeq({Row_DemeLimit(c) : c \in Fam_DemeLimit}) \o SetToSeq({Row_LevelLimit(c) : c \in Fam_LevelLimit})
-          \o SetToSeq({Row_SkipSame(c) : c \in Fam_SkipSame}) \o SetToSeq({Row_Far(c) : c \in Fam_Far})
+          \o SetToSeq({Row_SkipSame(c) : c \in Fam_SkipSame}) \o SetToSeq({Row_SkipSame3(c) : c \in Fam_SkipSame3})
+          \o SetToSeq({Row_Far(c) : c \in Fam_Far})
           \o SetToSeq({Row_NBCFar(c) : c \in Fam_NBCFar}))
 
 -----------------------------------------------------------------------------
